@@ -177,23 +177,35 @@ theorem chain_two {c : Cfg} {name : String} {ttl : Nat} {expire H : Int} {outs :
     · omega
     · exact ⟨o2, ho2, g1, g2, g3⟩
 
+/-- reading the first link off a `Chain` whose history goes beyond its deadline -/
+theorem chain_one {c : Cfg} {name : String} {ttl : Nat} {expire H : Int} {outs : List Send} {w : Int} {k : Nat}
+    (h : Chain c name ttl expire H outs (k + 1) w) (hH : w + c.minDelay < H) :
+    ∃ o1 ∈ outs, w ≤ o1.t ∧ o1.t ≤ w + c.minDelay ∧ name ∈ o1.types := by
+  simp only [Chain] at h
+  rcases h with h | ⟨o1, ho1, h1, h2, h3, _⟩
+  · omega
+  · exact ⟨o1, ho1, h1, h2, h3⟩
+
 /-- **the 75 % and the 85 % query of any pointer update of a started browser** (scheduler level).  At `t`, after `start`, the browser
 is told about a pointer record of instance `a` (type `n`, TTL `ttl`, created `cr`) — new or a refresh, whatever the scheduler held
 for the instance before; every earlier record of the instance named the same type (`OneName`); the record is neither refreshed nor
 withdrawn in the blocks `evsA` that follow, up to a block at `tn` beyond the second deadline; the earliest possible schedule of its
 75 % query (`cr + 75 % − minDelay`) is neither before the record is learned nor inside the start-up phase.  Then the scheduler asks
 for `n` at some `o₁ ∈ [cr + 75 % − minDelay, cr + 75 % + 2·minDelay]` and again at `o₂ ∈ [o₁ + 10 %, o₁ + 10 % + minDelay]`. -/
-theorem refresh_two_sends_any (types : List String) (minDelay : Nat) (tS : Int) (pre0 : List (Int × Op)) (tb : Int) (d : Nat)
+theorem refresh_sends_any (types : List String) (minDelay : Nat) (tS : Int) (pre0 : List (Int × Op)) (tb : Int) (d : Nat)
     (pre : List (Int × Op)) (t : Int) (a n : String) (ttl : Nat) (cr : Int) (evsA : List (Int × Op)) (tn : Int) (opn : Op)
     (rest : List (Int × Op)) (s' : Sched2.S2) (outs : List Send)
     (hidle : IdleOps pre0) (hpre : Active pre) (hact : Active evsA) (hun : Untouched a evsA)
     (hname : OneName a n (pre0 ++ pre))
     (hlearn : t + minDelay ≤ cr + 750 * ttl) (hstartup : tb + d + 14000 + minDelay ≤ cr + 750 * ttl)
-    (httl : (3 * minDelay : Int) < 150 * ttl) (hbeyond : cr + 850 * ttl + 3 * minDelay < tn)
+    (httl : (3 * minDelay : Int) < 150 * ttl)
     (hex : Sched2.exec2 (browserCfg types minDelay none) {} tS
       (pre0 ++ (tb, .start d) :: (pre ++ (t, .ptr a n ttl cr) :: (evsA ++ (tn, opn) :: rest))) = .ok (s', outs)) :
-    ∃ o1 ∈ outs, cr + 750 * ttl - minDelay ≤ o1.t ∧ o1.t ≤ cr + 750 * ttl + 2 * minDelay ∧ n ∈ o1.types ∧
-      ∃ o2 ∈ outs, o1.t + 100 * ttl ≤ o2.t ∧ o2.t ≤ o1.t + 100 * ttl + minDelay ∧ n ∈ o2.types := by
+    (cr + 750 * ttl + 2 * minDelay < tn →
+      ∃ o1 ∈ outs, cr + 750 * ttl - minDelay ≤ o1.t ∧ o1.t ≤ cr + 750 * ttl + 2 * minDelay ∧ n ∈ o1.types) ∧
+    (cr + 850 * ttl + 3 * minDelay < tn →
+      ∃ o1 ∈ outs, cr + 750 * ttl - minDelay ≤ o1.t ∧ o1.t ≤ cr + 750 * ttl + 2 * minDelay ∧ n ∈ o1.types ∧
+        ∃ o2 ∈ outs, o1.t + 100 * ttl ≤ o2.t ∧ o2.t ≤ o1.t + 100 * ttl + minDelay ∧ n ∈ o2.types) := by
   have hex1 := (Sched2.exec2_sound _ Sched2.inv2_init hex).1
   have hassoc : pre0 ++ (tb, Op.start d) :: (pre ++ (t, Op.ptr a n ttl cr) :: (evsA ++ (tn, opn) :: rest)) =
       (pre0 ++ (tb, Op.start d) :: (pre ++ (t, Op.ptr a n ttl cr) :: evsA)) ++ (tn, opn) :: rest := by simp
@@ -253,26 +265,50 @@ theorem refresh_two_sends_any (types : List String) (minDelay : Nat) (tS : Int) 
       have hclk2 := (enabled_post hp hen).1
       exact chain_core c n ttl (cr + 1000 * ttl) evs 2 s3 t s'' o3 q hp3 hq3 hql hqn hqttl hqexp
         (by rw [he3]; rw [hcm] at hearl ⊢; omega) (by omega) hactun hex3
-  obtain ⟨o1, ho1, h1, h2, h3, o2, ho2, g1, g2, g3⟩ := chain_two hchain (by rw [hcm]; omega) (by rw [hcm]; omega)
-  rw [hcm] at h2 g2
-  refine ⟨o1, ?_, by omega, by omega, h3, o2, ?_, g1, g2, g3⟩
-  · exact List.mem_append_left _ (List.mem_append_right _ (List.mem_append_right _ ho1))
-  · exact List.mem_append_left _ (List.mem_append_right _ (List.mem_append_right _ ho2))
+  constructor
+  · intro hb1
+    obtain ⟨o1, ho1, h1, h2, h3⟩ := chain_one hchain (by rw [hcm]; omega)
+    rw [hcm] at h2
+    exact ⟨o1, List.mem_append_left _ (List.mem_append_right _ (List.mem_append_right _ ho1)), by omega, by omega, h3⟩
+  · intro hbeyond
+    obtain ⟨o1, ho1, h1, h2, h3, o2, ho2, g1, g2, g3⟩ := chain_two hchain (by rw [hcm]; omega) (by rw [hcm]; omega)
+    rw [hcm] at h2 g2
+    refine ⟨o1, ?_, by omega, by omega, h3, o2, ?_, g1, g2, g3⟩
+    · exact List.mem_append_left _ (List.mem_append_right _ (List.mem_append_right _ ho1))
+    · exact List.mem_append_left _ (List.mem_append_right _ (List.mem_append_right _ ho2))
+
+/-- … both queries, for a history beyond the second deadline -/
+theorem refresh_two_sends_any (types : List String) (minDelay : Nat) (tS : Int) (pre0 : List (Int × Op)) (tb : Int) (d : Nat)
+    (pre : List (Int × Op)) (t : Int) (a n : String) (ttl : Nat) (cr : Int) (evsA : List (Int × Op)) (tn : Int) (opn : Op)
+    (rest : List (Int × Op)) (s' : Sched2.S2) (outs : List Send)
+    (hidle : IdleOps pre0) (hpre : Active pre) (hact : Active evsA) (hun : Untouched a evsA)
+    (hname : OneName a n (pre0 ++ pre))
+    (hlearn : t + minDelay ≤ cr + 750 * ttl) (hstartup : tb + d + 14000 + minDelay ≤ cr + 750 * ttl)
+    (httl : (3 * minDelay : Int) < 150 * ttl) (hbeyond : cr + 850 * ttl + 3 * minDelay < tn)
+    (hex : Sched2.exec2 (browserCfg types minDelay none) {} tS
+      (pre0 ++ (tb, .start d) :: (pre ++ (t, .ptr a n ttl cr) :: (evsA ++ (tn, opn) :: rest))) = .ok (s', outs)) :
+    ∃ o1 ∈ outs, cr + 750 * ttl - minDelay ≤ o1.t ∧ o1.t ≤ cr + 750 * ttl + 2 * minDelay ∧ n ∈ o1.types ∧
+      ∃ o2 ∈ outs, o1.t + 100 * ttl ≤ o2.t ∧ o2.t ≤ o1.t + 100 * ttl + minDelay ∧ n ∈ o2.types :=
+  (refresh_sends_any types minDelay tS pre0 tb d pre t a n ttl cr evsA tn opn rest s' outs hidle hpre hact hun hname hlearn hstartup
+    httl hex).2 hbeyond
 
 /-- **… for a record the scheduler is told about before `start`** (the listener is installed first; this is how the pointer
 records of a warm cache arrive at a new browser, with their original creation time): blocks `pre0a` (every earlier record of the
 instance naming the same type), the pointer record, more record updates `pre0b` that leave it alone, `start`, then blocks leaving it
 alone up to a block beyond the second deadline. -/
-theorem refresh_two_sends_before_start (types : List String) (minDelay : Nat) (tS : Int) (pre0a : List (Int × Op)) (t : Int)
+theorem refresh_sends_before_start (types : List String) (minDelay : Nat) (tS : Int) (pre0a : List (Int × Op)) (t : Int)
     (a n : String) (ttl : Nat) (cr : Int) (pre0b : List (Int × Op)) (tb : Int) (d : Nat) (evsA : List (Int × Op)) (tn : Int)
     (opn : Op) (rest : List (Int × Op)) (s' : Sched2.S2) (outs : List Send)
     (hidlea : IdleOps pre0a) (hidleb : IdleOps pre0b) (hunb : Untouched a pre0b) (hact : Active evsA) (hun : Untouched a evsA)
     (hname : OneName a n pre0a) (hstartup : tb + d + 14000 + minDelay ≤ cr + 750 * ttl)
-    (httl : (3 * minDelay : Int) < 150 * ttl) (hbeyond : cr + 850 * ttl + 3 * minDelay < tn)
+    (httl : (3 * minDelay : Int) < 150 * ttl)
     (hex : Sched2.exec2 (browserCfg types minDelay none) {} tS
       (pre0a ++ (t, .ptr a n ttl cr) :: (pre0b ++ (tb, .start d) :: (evsA ++ (tn, opn) :: rest))) = .ok (s', outs)) :
-    ∃ o1 ∈ outs, cr + 750 * ttl - minDelay ≤ o1.t ∧ o1.t ≤ cr + 750 * ttl + 2 * minDelay ∧ n ∈ o1.types ∧
-      ∃ o2 ∈ outs, o1.t + 100 * ttl ≤ o2.t ∧ o2.t ≤ o1.t + 100 * ttl + minDelay ∧ n ∈ o2.types := by
+    (cr + 750 * ttl + 2 * minDelay < tn →
+      ∃ o1 ∈ outs, cr + 750 * ttl - minDelay ≤ o1.t ∧ o1.t ≤ cr + 750 * ttl + 2 * minDelay ∧ n ∈ o1.types) ∧
+    (cr + 850 * ttl + 3 * minDelay < tn →
+      ∃ o1 ∈ outs, cr + 750 * ttl - minDelay ≤ o1.t ∧ o1.t ≤ cr + 750 * ttl + 2 * minDelay ∧ n ∈ o1.types ∧
+        ∃ o2 ∈ outs, o1.t + 100 * ttl ≤ o2.t ∧ o2.t ≤ o1.t + 100 * ttl + minDelay ∧ n ∈ o2.types) := by
   have hex1 := (Sched2.exec2_sound _ Sched2.inv2_init hex).1
   have hassoc : pre0a ++ (t, Op.ptr a n ttl cr) :: (pre0b ++ (tb, Op.start d) :: (evsA ++ (tn, opn) :: rest)) =
       (pre0a ++ (t, Op.ptr a n ttl cr) :: (pre0b ++ (tb, Op.start d) :: evsA)) ++ (tn, opn) :: rest := by simp
@@ -324,11 +360,32 @@ theorem refresh_two_sends_before_start (types : List String) (minDelay : Nat) (t
     rw [← hlast]
     exact chain_pre c n ttl (cr + 1000 * ttl) (tb + d) evs 2 s3 tb s'' o4 q hpre3 hq3 hql hqn hqttl hqexp (by omega) (by omega)
       (fun e he => ⟨hact' e he, by rw [hqa]; exact hun' e he⟩) hex4
-  obtain ⟨o1, ho1, h1, h2, h3, o2, ho2, g1, g2, g3⟩ := chain_two hchain (by rw [hcm]; omega) (by rw [hcm]; omega)
-  rw [hcm] at h2 g2
-  refine ⟨o1, ?_, by omega, by omega, h3, o2, ?_, g1, g2, g3⟩
-  · exact List.mem_append_left _ (List.mem_append_right _ (List.mem_append_right _ (List.mem_append_right _ (List.mem_append_right _ ho1))))
-  · exact List.mem_append_left _ (List.mem_append_right _ (List.mem_append_right _ (List.mem_append_right _ (List.mem_append_right _ ho2))))
+  constructor
+  · intro hb1
+    obtain ⟨o1, ho1, h1, h2, h3⟩ := chain_one hchain (by rw [hcm]; omega)
+    rw [hcm] at h2
+    exact ⟨o1, List.mem_append_left _ (List.mem_append_right _ (List.mem_append_right _ (List.mem_append_right _
+      (List.mem_append_right _ ho1)))), by omega, by omega, h3⟩
+  · intro hbeyond
+    obtain ⟨o1, ho1, h1, h2, h3, o2, ho2, g1, g2, g3⟩ := chain_two hchain (by rw [hcm]; omega) (by rw [hcm]; omega)
+    rw [hcm] at h2 g2
+    refine ⟨o1, ?_, by omega, by omega, h3, o2, ?_, g1, g2, g3⟩
+    · exact List.mem_append_left _ (List.mem_append_right _ (List.mem_append_right _ (List.mem_append_right _ (List.mem_append_right _ ho1))))
+    · exact List.mem_append_left _ (List.mem_append_right _ (List.mem_append_right _ (List.mem_append_right _ (List.mem_append_right _ ho2))))
+
+/-- … both queries, for a history beyond the second deadline -/
+theorem refresh_two_sends_before_start (types : List String) (minDelay : Nat) (tS : Int) (pre0a : List (Int × Op)) (t : Int)
+    (a n : String) (ttl : Nat) (cr : Int) (pre0b : List (Int × Op)) (tb : Int) (d : Nat) (evsA : List (Int × Op)) (tn : Int)
+    (opn : Op) (rest : List (Int × Op)) (s' : Sched2.S2) (outs : List Send)
+    (hidlea : IdleOps pre0a) (hidleb : IdleOps pre0b) (hunb : Untouched a pre0b) (hact : Active evsA) (hun : Untouched a evsA)
+    (hname : OneName a n pre0a) (hstartup : tb + d + 14000 + minDelay ≤ cr + 750 * ttl)
+    (httl : (3 * minDelay : Int) < 150 * ttl) (hbeyond : cr + 850 * ttl + 3 * minDelay < tn)
+    (hex : Sched2.exec2 (browserCfg types minDelay none) {} tS
+      (pre0a ++ (t, .ptr a n ttl cr) :: (pre0b ++ (tb, .start d) :: (evsA ++ (tn, opn) :: rest))) = .ok (s', outs)) :
+    ∃ o1 ∈ outs, cr + 750 * ttl - minDelay ≤ o1.t ∧ o1.t ≤ cr + 750 * ttl + 2 * minDelay ∧ n ∈ o1.types ∧
+      ∃ o2 ∈ outs, o1.t + 100 * ttl ≤ o2.t ∧ o2.t ≤ o1.t + 100 * ttl + minDelay ∧ n ∈ o2.types :=
+  (refresh_sends_before_start types minDelay tS pre0a t a n ttl cr pre0b tb d evsA tn opn rest s' outs hidlea hidleb hunb hact hun
+    hname hstartup httl hex).2 hbeyond
 
 /-! ### K3b's windows -/
 
@@ -337,7 +394,7 @@ point): from the two sends of `refresh_two_sends_any` / `refresh_two_sends_befor
 stale record to the wire (`WireAskWithout`).  The record is the link-level PTR processed at `t` (created `t`) with lifetime `ttl`
 seconds. -/
 theorem K3b_windows_of_sends (tr : Link.Trace) (b : Link.Br) (s : Link.Svc) (n : String) (outs : List Send) (tb t : Int) (ttl : Nat)
-    (hearly : tb + 120 + 14000 + 10000 ≤ t + 750 * ttl)
+    (hearly : tb + 120 + 14000 + 10000 + 999 ≤ t + 750 * ttl)
     (hsends : ∃ o1 ∈ outs, t + 750 * ttl - 10000 ≤ o1.t ∧ o1.t ≤ t + 750 * ttl + 2 * 10000 ∧ n ∈ o1.types ∧
       ∃ o2 ∈ outs, o1.t + 100 * ttl ≤ o2.t ∧ o2.t ≤ o1.t + 100 * ttl + 10000 ∧ n ∈ o2.types)
     (hwire : ∀ o ∈ outs, n ∈ o.types → t + 750 * ttl - 10000 ≤ o.t → WireAskWithout tr b s o) :
@@ -363,7 +420,7 @@ theorem K3b_windows_startup (tr : Link.Trace) (b : Link.Br) (s : Link.Svc) (type
     (hidle : IdleOps pre0) (hact : Active evs)
     (hex : Sched2.exec2 (browserCfg types minDelay none) {} tS (pre0 ++ (tb, .start d) :: evs) = .ok (s', outs))
     (hlast : tb + 120 + 14000 < lastTime tb evs)
-    (hlate : ¬ tb + 120 + 14000 + 10000 ≤ t + 750 * ttl)
+    (hlate : ¬ tb + 120 + 14000 + 10000 + 999 ≤ t + 750 * ttl)
     (hwire : ∀ o ∈ outs, n ∈ o.types → tb + 5000 ≤ o.t → WireAskWithout tr b s o) :
     Link.refreshOpp tr b.host b.ty s (Link.refreshWindow Link.Cfg.paper t ttl tb false).1
         (Link.refreshWindow Link.Cfg.paper t ttl tb false).2 = true
